@@ -189,22 +189,75 @@ Theorem c05_unignored_file_reported :
 Proof. exact unignored_file_reported. Qed.
 Print Assumptions c05_unignored_file_reported.
 
-(* ---- 7. language server: ignoreURI (workspace path, one file) and getFilteredModules (workspace
-        URI, all modules) decide the same for every .rego file below the workspace root *)
+(* ---- 7. language server.  Files are known by URI, percent-encoded by the client (generic clients, and the VS Code
+        form with the drive letter colon encoded); ignore patterns are written against plain paths.  [uri_to_path] is
+        uri.ToPath (percent-decoding).  For EVERY URI u and root URI (any spelling: escapes, hex case, "+", drive
+        letter form) whose decoded paths are rootp/r and rootp: ignoreURI (one URI) and getFilteredModules (all cached
+        modules) both decide on the DECODED root-relative path r, by the matcher's meaning of "r matches a pattern" *)
 
 Theorem c05_lsp_call_sites_agree :
-  forall ok m (rootp r : str) (ignore uris kept : list str),
-    let root_uri := file_scheme ++ rootp in
-    let u := file_scheme ++ rootp ++ [SLASH] ++ r in
+  forall ok m (cl : lsp_client) (root_uri u rootp r : str) (ignore uris kept : list str),
+    uri_to_path cl root_uri = rootp -> uri_to_path cl u = rootp ++ [SLASH] ++ r ->
     rootp <> [] -> has_suffix rootp [SLASH] = false ->
     has_suffix u dot_rego = true ->
     (forall p, In p ignore -> p <> [] -> compiles ok p = true) ->
-    is_stdin uris = false ->
-    lsp_filtered_modules ok m root_uri ignore uris = Some kept ->
+    lsp_filtered_modules ok m cl root_uri ignore uris = Some kept ->
     In u uris ->
-    (lsp_ignore_uri ok m root_uri ignore u = true <-> ~ In u kept).
+    lsp_ignore_uri ok m cl root_uri ignore u = matches_any ok m ignore r /\
+    (In u kept <-> matches_any ok m ignore r = false).
 Proof. exact lsp_call_sites_agree. Qed.
 Print Assumptions c05_lsp_call_sites_agree.
+
+(* without any hypothesis on the URIs or the patterns: whenever getFilteredModules returns at all, it drops exactly
+   the cached .rego URIs that ignoreURI reports as ignored *)
+Theorem c05_lsp_call_sites_agree_any :
+  forall ok m (cl : lsp_client) (root_uri u : str) (ignore uris kept : list str),
+    has_suffix u dot_rego = true ->
+    lsp_filtered_modules ok m cl root_uri ignore uris = Some kept -> In u uris ->
+    (lsp_ignore_uri ok m cl root_uri ignore u = true <-> ~ In u kept).
+Proof. exact lsp_call_sites_agree_any. Qed.
+Print Assumptions c05_lsp_call_sites_agree_any.
+
+(* the hypotheses of c05_lsp_call_sites_agree are met by every path: uri.ToPath undoes uri.FromPath's escaping
+   (unreserved characters and "/" stay, every other byte becomes %XY) *)
+Theorem c05_uri_roundtrip :
+  forall p : str, Forall (fun c => c < 256) p ->
+    query_unescape (uri_escape p) = Some p /\
+    uri_to_path ClientGeneric (file_scheme ++ uri_escape p) = p.
+Proof. intros p H. split; [exact (unescape_escape p H)|exact (uri_roundtrip p H)]. Qed.
+Print Assumptions c05_uri_roundtrip.
+
+(* regression: before the round-3 repair getFilteredModules matched the percent-encoded text and kept a module
+   that ignoreURI reports as ignored (root file:///w, module file:///w/a%20b.rego, pattern "a b.rego") *)
+Theorem c05_lsp_modules_pinned_refuted :
+  exists root_uri u p,
+    let lit := fun e f : str => str_eqb e f in
+    lsp_ignore_uri (fun _ => true) lit ClientGeneric root_uri [p] u = true /\
+    lsp_filtered_modules_pinned (fun _ => true) lit root_uri [p] [u] = Some [u] /\
+    lsp_filtered_modules (fun _ => true) lit ClientGeneric root_uri [p] [u] = Some [].
+Proof. exact lsp_modules_pinned_refuted. Qed.
+Print Assumptions c05_lsp_modules_pinned_refuted.
+
+(* OPEN finding (round 3): the server lints with URIs as file names and the root URI as prefix
+   ([lsp_lint_in]); a rule's own ignore list is then matched against the percent-ENCODED root-relative name:
+   the statement "a file whose decoded root-relative path matches the rule's pattern is not evaluated by the rule"
+   is refuted (file:///w/a%20b.rego, pattern "a b.rego"), and holds for URIs that spell the path as it is *)
+Theorem c05_lsp_rule_ignore_decoded_refuted :
+  exists root_uri u r p,
+    let lit := fun e f : str => str_eqb e f in
+    uri_to_path ClientGeneric u = uri_to_path ClientGeneric root_uri ++ [SLASH] ++ r /\
+    matches (fun _ => true) lit p r = true /\
+    rule_runs_on (fun _ => true) lit (lsp_lint_in root_uri [u] [p]) KBuiltin u = true.
+Proof. exact lsp_rule_ignore_decoded_refuted. Qed.
+Print Assumptions c05_lsp_rule_ignore_decoded_refuted.
+
+Theorem c05_lsp_rule_ignore_plain_partial :
+  forall ok m (root_uri r : str) (uris rule_ignore : list str) (k : rule_kind),
+    has_suffix root_uri [SLASH] = false ->
+    rule_runs_on ok m (lsp_lint_in root_uri uris rule_ignore) k (root_uri ++ [SLASH] ++ r) =
+    negb (rego_excluded_file ok m [] None rule_ignore r).
+Proof. exact lsp_rule_ignore_plain_partial. Qed.
+Print Assumptions c05_lsp_rule_ignore_plain_partial.
 
 (* ---- 8. how the CLI spells the file (open finding: relative argument, other working directory) *)
 
@@ -319,9 +372,33 @@ Proof. repeat split; reflexivity. Qed.
 Example ex_lsp :
   let root := file_scheme ++ [SLASH; 119] in
   let u := root ++ [SLASH; 97] ++ dot_rego in
-  lsp_ignore_uri lit_ok lit_match root [[97] ++ dot_rego] u = true
-  /\ lsp_filtered_modules lit_ok lit_match root [[97] ++ dot_rego] [u] = Some [].
+  lsp_ignore_uri lit_ok lit_match ClientGeneric root [[97] ++ dot_rego] u = true
+  /\ lsp_filtered_modules lit_ok lit_match ClientGeneric root [[97] ++ dot_rego] [u] = Some [].
 Proof. split; reflexivity. Qed.
+
+(* encoded characters: workspace "file:///my%20w", module "file:///my%20w/g%C3%A9n%20%231/p.rego" (decoded
+   "/my w/gén #1/p.rego"), pattern "gén #1/p.rego" written in plain form (the engine of the examples is literal): the hypotheses of c05_lsp_call_sites_agree
+   hold with rootp = "/my w", r = "gén #1/p.rego", and both call sites drop the module; the unencoded-looking
+   sibling "g%C3%A9n%20%232/p.rego" is kept.  Same for the VS Code form "file:///c%3A/my%20w/..." *)
+Definition ex_root_enc : str := file_scheme ++ [SLASH; 109;121;37;50;48;119]%N.
+Definition ex_dir_enc (d : N) : str := [SLASH; 103;37;67;51;37;65;57;110;37;50;48;37;50;51; d; SLASH; 112]%N ++ dot_rego.
+Definition ex_r_dec (d : N) : str := [103;195;169;110;32;35; d; SLASH; 112]%N ++ dot_rego.
+Definition ex_pat_dec : str := ex_r_dec 49.
+Definition ex_drive : str := [SLASH; 99; 37; 51; 65]%N.   (* "/c%3A" *)
+
+Example ex_lsp_encoded :
+  let u := ex_root_enc ++ ex_dir_enc 49 in
+  let v := ex_root_enc ++ ex_dir_enc 50 in
+  uri_to_path ClientGeneric ex_root_enc = [SLASH; 109;121;32;119]%N
+  /\ uri_to_path ClientGeneric u = [SLASH; 109;121;32;119]%N ++ [SLASH] ++ ex_r_dec 49
+  /\ matches_any lit_ok lit_match [ex_pat_dec] (ex_r_dec 49) = true
+  /\ lsp_ignore_uri lit_ok lit_match ClientGeneric ex_root_enc [ex_pat_dec] u = true
+  /\ lsp_ignore_uri lit_ok lit_match ClientGeneric ex_root_enc [ex_pat_dec] v = false
+  /\ lsp_filtered_modules lit_ok lit_match ClientGeneric ex_root_enc [ex_pat_dec] [u; v] = Some [v]
+  /\ uri_to_path ClientVSCode (file_scheme ++ ex_drive ++ [SLASH; 109;121;37;50;48;119]%N) = [99; 58; SLASH; 109;121;32;119]%N
+  /\ lsp_ignore_uri lit_ok lit_match ClientVSCode (file_scheme ++ ex_drive ++ [SLASH; 109;121;37;50;48;119]%N) [ex_pat_dec]
+                    (file_scheme ++ ex_drive ++ [SLASH; 109;121;37;50;48;119]%N ++ ex_dir_enc 49) = true.
+Proof. vm_compute. repeat split; reflexivity. Qed.
 
 (* the project /build/proj holds .git/g.rego, a.rego, build/c.rego and data.json; literal engine, ignore ["a.rego"]:
    .git is pruned, data.json is no rego file, a.rego is dropped, build/c.rego is kept; the root's own path contains
